@@ -231,3 +231,26 @@ pub fn run_positions(ctx: &mut Ctx) {
     ctx.require_class("positions/offset-inside-CRLF");
     ctx.require_class("positions/out-of-range-positions");
 }
+
+pub fn main(mode: Mode) -> i32 {
+    match mode {
+        Mode::Worker(_) => 2,
+        Mode::Replay(_, doc) => {
+            let mut ctx = Ctx::new("C20", "quick");
+            match doc["sub"].as_str() {
+                Some("positions") => ctx.replay(&Positions, &doc),
+                other => {
+                    println!("unknown sub-check {other:?}");
+                    2
+                }
+            }
+        }
+        Mode::Run(tier) => {
+            let mut ctx = Ctx::new("C20", &tier);
+            start_watchdog(120, "C20");
+            ctx.rule = "positions: every document over the alphabet {a, 😀, é, LF, CR, 世} up to a length bound (exhaustive), plus proptest choice sequences decoded into dense alphabet texts, C06/C16 text families and repo files with rewritten line endings and inserted astral characters; for each text EVERY char-boundary offset is converted to (line, UTF-16 column) and back (must be identical and equal to an independent recomputation), every (line, column) with line <= lines+2, column <= width+3 plus extreme values must map to a char boundary inside the document; compute_line_starts must equal a naive scan. non-trivial = text with an offset adjacent to an astral character or inside a CR LF pair; distinct by text hash".into();
+            run_positions(&mut ctx);
+            ctx.finish()
+        }
+    }
+}
